@@ -34,6 +34,18 @@ def shapes(i):
     }
 
 
+def merge_cr(parts):
+    """Undo the head/tail view of a segment that contains a carriage return (x~h x~t -> x, x~h -> x)."""
+    out = []
+    for p in parts:
+        if isinstance(p, BSeg) and p.name.endswith("~t") and out and isinstance(out[-1], BSeg) and out[-1].name == p.name[:-2] + "~h":
+            out[-1] = BSeg(p.name[:-2])
+        else:
+            out.append(p)
+    # a head without tail: only when the path decided there is no tail (then the head is the whole segment)
+    return tuple(BSeg(p.name[:-2]) if isinstance(p, BSeg) and p.name.endswith("~h") else p for p in out)
+
+
 def scripts(tier):
     names = list(shapes(0))
     out = []
@@ -114,7 +126,7 @@ def run(check, repo, tier):
             buf = I_.heap[I_.heap[W.ref("dev").addr].fields["_read_buffer"].addr]
             return Tup((Tup(tuple(lines)), Tup(tuple(state["received"])), Const(len(buf.items) if buf.items is not None else -1)))
         n_scripts += 1
-        for path in I.explore(lambda I: None, entry, max_dev=None, max_paths=2000):
+        for path in I.explore(lambda I: None, entry, max_dev=(3 if tier == "quick" else None), max_paths=(2000 if tier == "quick" else 60000)):
             n_paths += 1
             d = [f"script: {label}", decisions_text(path)]
             if path.outcome != "return":
@@ -130,7 +142,7 @@ def run(check, repo, tier):
             if opaque:
                 check.violation("R1", "cut-inside-bytes", f"stream [{label}]: a returned line is cut at an offset that is not a chunk/newline boundary: {opaque[0]!r}", d)
                 continue
-            got = tuple(p for x in data for p in x.parts)
+            got = merge_cr(tuple(p for x in data for p in x.parts))
             if got != tuple(received.items):
                 check.violation("R1", "conservation", f"stream [{label}]: received {BV(tuple(received.items))!r} but the returned lines concatenate to {BV(got)!r}", d)
                 continue
